@@ -149,3 +149,142 @@ def clocktime_round_trip(repo):
             except Unknown as e:
                 raise ExtractError("START CLOCKTIME round trip not evaluable at %d s: %s" % (t, e))
     return rows, wt, rd
+
+
+# ------------------------------------------------------------------ generic string-level evaluation helpers (stdlib modelled, no repository code runs)
+def _string_evaluator(repo):
+    import ast
+    import re as _re
+    from ..src import unparse
+    from ..peval import Evaluator, Obj, Unknown
+
+    IO = "wntr/epanet/io.py"
+    helpers = {}
+    for nm in ("_sec_to_string", "_str_time_to_sec", "_clock_time_to_sec"):
+        if repo.has_func(IO, nm):
+            helpers[nm] = repo.func(IO, nm)
+
+    class Ev(Evaluator):
+        def e_Subscript(self, n):
+            b = self.ev(n.value)
+            if isinstance(n.slice, ast.Slice):
+                lo = self.ev(n.slice.lower) if n.slice.lower is not None else None
+                hi = self.ev(n.slice.upper) if n.slice.upper is not None else None
+                return b[lo:hi]
+            return b[self.ev(n.slice)]
+
+        def e_Starred(self, n):
+            raise Unknown("starred")
+
+    def hook(name, n, ev):
+        def args():
+            out = []
+            for a in n.args:
+                if isinstance(a, ast.Starred):
+                    out.extend(ev.ev(a.value))
+                else:
+                    out.append(ev.ev(a))
+            return out
+        if name in ("int", "float", "round", "len", "str", "abs"):
+            a = args()
+            return {"int": int, "float": float, "round": round, "len": len, "str": str, "abs": abs}[name](*a)
+        if name == "bool":
+            v = args()[0]
+            return v is not None and v is not False and v != 0
+        if name == "re.compile":
+            return Obj("pattern", {"re": _re.compile(args()[0])})
+        if isinstance(n.func, ast.Attribute):
+            m = n.func.attr
+            if m in ("search", "match"):
+                pat = ev.ev(n.func.value)
+                if isinstance(pat, Obj) and "re" in pat.attrs:
+                    r = getattr(pat.attrs["re"], m)(args()[0])
+                    return None if r is None else Obj("match", {"groups": r.groups()})
+            if m == "groups":
+                return list(ev.ev(n.func.value).attrs["groups"])
+            if m in ("upper", "lower", "strip", "split", "startswith", "endswith", "format", "replace"):
+                base = ev.ev(n.func.value)
+                if isinstance(base, str):
+                    return getattr(base, m)(*args(), **{k.arg: ev.ev(k.value) for k in n.keywords})
+        if name in helpers:
+            sub = Ev({a.arg: v for a, v in zip(helpers[name].args.args, args())}, None, hook)
+            return sub.run(helpers[name].body)
+        return NotImplemented
+    return Ev, hook
+
+
+def rule_clock_round_trip(repo):
+    """_sec_to_clock (used by TimeOfDayCondition.__str__, i.e. by the rule writer) composed with ControlCondition._parse_value (used by the
+    rule reader): -> [(seconds, text, seconds read back)]"""
+    import ast
+    from ..src import ExtractError
+    from ..peval import Unknown, Raised
+    CTRL = "wntr/network/controls.py"
+    Ev, hook = _string_evaluator(repo)
+    s2c = repo.func(CTRL, "ControlCondition._sec_to_clock")
+    pv = repo.func(CTRL, "ControlCondition._parse_value")
+    tr = [s for s in pv.body if isinstance(s, ast.Try)]
+    if not tr or not tr[0].handlers:
+        raise ExtractError("_parse_value: try/except ValueError not found")
+    text_body = tr[0].handlers[0].body        # the branch taken for a non-numeric string
+    rows = []
+    for h in range(24):
+        for m_, s_ in ((0, 0), (30, 0), (59, 59)):
+            t = h * 3600 + m_ * 60 + s_
+            try:
+                text = Ev({"value": t, "cls": None}, None, hook).run(s2c.body)
+                back = Ev({"value": text, "cls": None}, None, hook).run(text_body)
+            except (Unknown, Raised) as e:
+                raise ExtractError("rule clock-time round trip not evaluable at %d s: %s" % (t, e))
+            rows.append((t, text, back))
+    return rows, s2c, pv
+
+
+def control_time_round_trip(repo):
+    """the simple time-control writer (`... AT TIME <t>` in InpFile._write_controls) composed with the reader's conversion of that token in
+    _read_control_line: -> [(seconds, token written, seconds read back)]"""
+    import ast
+    from ..src import ExtractError, unparse, walk
+    from ..peval import Unknown, Raised, Obj
+    IO = "wntr/epanet/io.py"
+    Ev, hook = _string_evaluator(repo)
+    wc = repo.func(IO, "InpFile._write_controls")
+    rc = repo.func(IO, "_read_control_line")
+    # writer: entry = '... AT {compare} {time...}' and vals = {..., 'time': <expr>}
+    entry = tv = None
+    for n in walk(wc):
+        if isinstance(n, ast.Assign) and isinstance(n.value, ast.Constant) and isinstance(n.value.value, str) and "AT {compare}" in n.value.value:
+            entry = n.value.value
+        if isinstance(n, ast.Dict):
+            for k, v in zip(n.keys, n.values):
+                if isinstance(k, ast.Constant) and k.value == "time" and "_threshold" in unparse(v):
+                    tv = v
+    if entry is None or tv is None:
+        raise ExtractError("_write_controls: time-control entry / 'time' value not found")
+    import re as _re
+    m = _re.search(r"\{time(:[^}]*)?\}", entry)
+    if not m:
+        raise ExtractError("_write_controls: {time} placeholder not found")
+    spec = (m.group(1) or ":")[1:]
+    # reader: if ':' in current[5]: run_at_time = int(_str_time_to_sec(current[5])) else: int(float(current[5]) * 3600)
+    rd_if = None
+    for n in walk(rc):
+        if isinstance(n, ast.If) and unparse(n.test).replace('"', "'") == "':' in current[5]" and any(isinstance(s, ast.Assign) and unparse(s.targets[0]) == "run_at_time" for s in n.body):
+            rd_if = n
+            break
+    if rd_if is None:
+        raise ExtractError("_read_control_line: conversion of the time token not found")
+    rows = []
+    for t in (0, 1, 59, 60, 1199, 1200, 3599, 3600, 3661, 4800, 8400, 43200, 86399, 90061, 604860, 1000000):
+        try:
+            cond = Obj("cond", {"_threshold": t})
+            ctl = Obj("ctl", {"_condition": cond})
+            val = Ev({"all_control": ctl}, None, hook).ev(tv)
+            token = format(val, spec).strip()
+            e = Ev({"current": ["LINK", "x", "OPEN", "AT", "TIME", token]}, None, hook)
+            e.block([rd_if])
+            back = e.env.get("run_at_time")
+        except (Unknown, Raised) as ex:
+            raise ExtractError("time-control round trip not evaluable at %d s: %s" % (t, ex))
+        rows.append((t, token, back))
+    return rows, wc, rc
